@@ -322,7 +322,7 @@ func realMain() int {
 		out := filepath.Join(scratch, fmt.Sprintf("result-%d-%d.json", w, time.Now().UnixNano()))
 		wd := filepath.Join(scratch, fmt.Sprintf("work-%d-%d", w, wdSeq.Add(1)))
 		os.MkdirAll(wd, 0o755)
-		timeout := time.Duration(tc.BudgetS*float64(time.Second)) + 150*time.Second
+		timeout := time.Duration(tc.BudgetS*float64(time.Second)) + 600*time.Second
 		for _, e := range extraEnv {
 			if strings.HasPrefix(e, "VERIF_REPLAY=") {
 				// a replay may have to re-run the worker session that led to the violation (thorough: ten minutes)
